@@ -6,11 +6,16 @@ CHECK_TEXT = {
                  "Box/Rc/Arc, boxed/shared slices, arrays(encode), ranges, Bound, NonZero*, Duration, Cell, Wrapping, Reverse, PhantomData, unit, primitives) "
                  "are extracted mechanically on every run and verified by Verus against trait-level contracts (encode appends exactly the image; "
                  "decode of image+tail returns a value with the same image and leaves exactly tail; every image is prefix-free), for ALL type "
-                 "instantiations and nesting depths by modularity. Tests can only sample values; this quantifies over all of them."),
+                 "instantiations and nesting depths by modularity. (3) PostcardEncoder<W>/PostcardDecoder<R> themselves are verified by Verus against those "
+                 "trait contracts: the four LEB128 encoders and readers with inductive loop invariants, zigzag by bit-vector reasoning, every emit_*/read_* "
+                 "(any value, any tail) -- so (1) and (2) are linked by proof, not by assumption. (4) derive output on fixture types (expanded by the real "
+                 "proc-macro every run) and the framing of interned handles (WiredInterned, session step of Encode for Interned<T>). "
+                 "Tests can only sample values; this quantifies over all of them."),
         "design_ref": "DESIGN.md section 5 (C12)",
-        "note": ("Trusted: Verus/Z3, Kani/CBMC; the Encoder/Decoder trait contracts link the two halves (established for Postcard* by the Kani harnesses); "
-                 "std models listed in evidence.trusted_base; Plugin/Session opaque. NOT under contract (stated in evidence): String/str/Path, "
-                 "VecDeque/LinkedList/BTree*/Hash*/Dash* collections, Cow, RefCell, atomics, [T;N]::decode, SmallVec, BitVec, Interned, derive output."),
+        "note": ("Trusted: Verus/Z3, Kani/CBMC; io::Write modelled as an appending writer, io::Read as a reliable in-memory reader; "
+                 "std models listed in evidence.trusted_base; Plugin opaque, Session a typed-slot stand-in. NOT under contract (stated in evidence, covered by the "
+                 "bounded run only): String/str/Path, VecDeque/LinkedList/BTree*/Hash*/Dash* collections, Cow, RefCell, atomics, [T;N]::decode, SmallVec, BitVec, "
+                 "the Decode impls of Interned<..> (shared interner state)."),
         "technique": "contract-based deductive verification: Verus (Z3) on mechanically extracted real impls + Kani function-level full-domain harnesses",
     },
 }
@@ -38,10 +43,12 @@ CHECK_TEXT["C10"] = {
              "CurrentBatch::flush commits the open group exactly once also while shutting down; commit_worker (all arrival orders, unbounded) ends with an "
              "empty hold-back queue (its real assert! is a discharged obligation), a final flush, and all epochs 0..total committed group by group in "
              "creation order; submit_write_batch hands every batch to the pipeline; serialize_worker only forwards well-formed tasks. "
+             "What one batch carries: TypedWideColumnWrites::insert / TypedKeyOfSetWrites::insert are last-writer-wins steps on exactly one slot and compose "
+             "(lemmas) to the net effect of the staged operations in issue order. "
              "Tests run a handful of schedules; this covers every arrival order and every grouping decision of the store."),
     "design_ref": "DESIGN.md section 5 (C10)",
     "note": ("Threads are not modelled: the history preconditions of commit_worker (each epoch delivered at most once; all delivered by channel close) are "
-             "explicit assumptions; shutdown/join order, atomics and the producers are trusted. Storage traits, crossbeam, BinaryHeap are interface/std models "
+             "explicit assumptions; shutdown/join order, atomics and the producers are trusted. Storage traits, crossbeam, BinaryHeap, the HashMap Entry API (rule R15) are interface/std models "
              "listed in evidence.trusted_base."),
     "technique": "contract-based deductive verification: Verus (Z3), inductive loop invariants over an abstract heap view, ghost history variables",
 }
@@ -52,7 +59,8 @@ CHECK_TEXT["C16"] = {
              "forget a key ONLY after the owner confirmed its removal (remove(k) returned true) or on an explicit Removed message, park a key in the pinned "
              "region only when the owner refused, keep window+probation+protected <= max_capacity after every operation (unbounded induction, all access "
              "sequences), and never panic (every unwrap() is a discharged obligation -- this is how finding F3 was found and fixed). "
-             "sketch.rs: every index in bounds, no overflow, 4-bit counters never carry (Verus + Kani on a full-domain word). "
+             "The dispatcher above it (tiny_lfu.rs process_write / process_message) delivers every message to its handler with its own key whatever the "
+             "concurrently mutated storage map answers. sketch.rs: every index in bounds, no overflow, 4-bit counters never carry (Verus + Kani on a full-domain word). "
              "The Lru contract itself is checked on the real raw-pointer Lru by a bounded exhaustive conformance run (labelled bounded)."),
     "design_ref": "DESIGN.md section 5 (C16), section 7 (F3)",
     "note": ("ASSUMED: the abstract Lru contract (bounded-checked only), the remove closure's meaning, key Clone, 64-bit usize. NOT decided: concurrent buffers between "
